@@ -18,11 +18,16 @@ CONSTANTS
   KnownB(_),    \* is this byte a known constant (not poison / not symbolic)
   PoisonB       \* a byte that equals nothing observed
 
+(* TLC keeps a function constructor [i \in S |-> e] as a lazy value whose elements are recomputed at every  *)
+(* application; a chain x xor (y xor (z xor ...)) that never passes through a cipher lookup (PCBC decryption: *)
+(* S_i = C_i xor D(C_i) xor S_{i-1}) then costs O(depth) per element and a whole message O(n^3).  Appending  *)
+(* the empty sequence turns the value into an explicit tuple once.                                          *)
+Tup(f) == f \o <<>>
 XorBlk(x, y) ==
-  IF Len(x) = Len(y) THEN [i \in 1..Len(x) |-> XorB(x[i], y[i])]
+  IF Len(x) = Len(y) THEN Tup([i \in 1..Len(x) |-> XorB(x[i], y[i])])
   ELSE Assert(FALSE, <<"xor of unequal lengths", Len(x), Len(y)>>)
 (* x xor the leading Len(x) bytes of y *)
-XorPre(x, y) == [i \in 1..Len(x) |-> XorB(x[i], y[i])]
+XorPre(x, y) == Tup([i \in 1..Len(x) |-> XorB(x[i], y[i])])
 Zeros(n)     == Rep(ByteOf(0), n)
 KnownBlk(b)  == \A i \in 1..Len(b) : KnownB(b[i])
 PoisonBlk(n) == Rep(PoisonB, n)
